@@ -1,4 +1,4 @@
-(* Props/C14.v — property theorems only; each closed by `exact <lemma>` (proofs in Fmt/{Render,Breaks,Witness}.v).
+(* Props/C14.v — property theorems only; each closed by `exact <lemma>` (proofs in Fmt/{Render,Breaks,Emits,Witness}.v).
 
    C14: "For every syntactically valid program and every line width, the formatter's output parses without errors to the same
    abstract syntax tree as the input, contains every comment of the input in the same order, and is a fixed point."
@@ -7,7 +7,8 @@
    * The layout engine of the `pretty` crate is NOT modelled.  Instead every theorem quantifies over ALL admissible renderings
      of a document (every flat/broken choice per group), which contains the rendering picked for any width and any indent.
    * `doc_of` transcribes cst_print.rs for the expression/statement fragment only (see Fmt/Model.v header); match, type
-     declarations, records, macro expansion, modules, `use`, are outside (`in_fragment c = false`).
+     declarations, modules, `use`, visibility are outside (`in_fragment c = false`); for those only the facts of the
+     property are checked directly on the implementation.
    * The parser is represented by its line-break rule only: `observed r` are the answers of has_trailing_linebreak() at the
      positions where parse_postfix_expr consults it with a postfix opener ahead; C14_breaks_safe_same_parse_partial is
      stated for ANY function of (token words, those answers).  That the real parser is such a function is checked by
